@@ -19,11 +19,12 @@ pub mod c14;
 pub mod c15;
 pub mod c16;
 pub mod c17;
+pub mod c18;
 pub mod c19;
 pub mod c20;
 pub mod gprog;
 
-pub const ALL: &[&str] = &["C01", "C02", "C03", "C04", "C05", "C06", "C07", "C08", "C09", "C10", "C11", "C12", "C13", "C14", "C15", "C16", "C17", "C19", "C20"];
+pub const ALL: &[&str] = &["C01", "C02", "C03", "C04", "C05", "C06", "C07", "C08", "C09", "C10", "C11", "C12", "C13", "C14", "C15", "C16", "C17", "C18", "C19", "C20"];
 
 pub fn intern(id: &str) -> Option<&'static str> {
     ALL.iter().copied().find(|p| *p == id)
@@ -55,6 +56,7 @@ pub fn meta(prop: &str) -> Option<Meta> {
         "C15" => Some(c15::meta()),
         "C16" => Some(c16::meta()),
         "C17" => Some(c17::meta()),
+        "C18" => Some(c18::meta()),
         "C19" => Some(c19::meta()),
         "C20" => Some(c20::meta()),
         _ => None,
@@ -80,6 +82,7 @@ pub fn spaces(prop: &str, tier: Tier, seed: u64) -> Vec<Box<dyn Space>> {
         "C15" => c15::spaces(tier, seed),
         "C16" => c16::spaces(tier, seed),
         "C17" => c17::spaces(tier, seed),
+        "C18" => c18::spaces(tier, seed),
         "C19" => c19::spaces(tier, seed),
         "C20" => c20::spaces(tier, seed),
         _ => Vec::new(),
